@@ -84,11 +84,13 @@ pub proof fn lemma_C05_inlay_hint_per_usage(us: Seq<UseV>, av: Seq<DefV>, a: AvV
 /// AGREEMENT of inlay hints with go-to-definition on the same usage x (file f, canonical), with EXPLICIT hypotheses:
 ///  H0 the usage is not a self-named parameter (no definition carrying x's name sits on x's line) — otherwise
 ///     go-to-definition skips that definition and the hint does not: see lemma_C05_FINDING_inlay_self_named below;
-///  H1 f defines the name at most once;  H3 the two import tests coincide;  H4 f has a parent directory (unit available).
+///  H3 the two import tests coincide;  H4 f has a parent directory (unit available).
+/// (H1 "f defines the name at most once" is no longer needed: since the repair of F-05a the view takes the last
+/// same-file definition of maximal line, as go-to-definition does.)
 pub proof fn lemma_C05_inlay_agrees_with_goto(a: AvV, provf: spec_fn(Seq<char>) -> spec_fn(PV) -> bool, f: PV, x: UseV)
     requires
         match pick_at_line(a.defs, f, x.line) { Some(c) => c.name != x.name, None => true },
-        at_most_one_in(bucket(a.defs, x.name), f), import_tests_agree(a, provf(x.name), x.name), pv_has_parent(f) && f.len() > 0,
+        import_tests_agree(a, provf(x.name), x.name), pv_has_parent(f) && f.len() > 0,
     ensures avail_pick(a, f, x.name) == resolve_usage(a.defs, provf, f, x)
 {
     lemma_C05_b_view_agrees_with_goto(a, f, provf(x.name), x.name);
@@ -97,7 +99,7 @@ pub proof fn lemma_C05_inlay_agrees_with_goto(a: AvV, provf: spec_fn(Seq<char>) 
 /// FINDING (proved): the overriding fixture `def foo(foo)` in file f (its only definition of `foo`; a parent conftest
 /// defines the `foo` it overrides).  Go-to-definition on the parameter skips the fixture on the parameter's own line
 /// (resolution excluding D: never D, lemma_C02_a); the per-file view inlay hints use has D ITSELF as the entry for
-/// `foo` (same-file definition first) — the hint on the parameter shows D's own return type.
+/// `foo` (the same-file definition wins) — the hint on the parameter shows D's own return type.
 pub proof fn lemma_C05_FINDING_inlay_self_named(a: AvV, provf: spec_fn(Seq<char>) -> spec_fn(PV) -> bool, f: PV, x: UseV, d: DefV, k: int)
     requires
         unique_at_line(a.defs), at_line(a.defs, f, x.line, d), d.name == x.name,           // x is a parameter of D named like D
@@ -108,6 +110,9 @@ pub proof fn lemma_C05_FINDING_inlay_self_named(a: AvV, provf: spec_fn(Seq<char>
     lemma_C02_a_never_self(bucket(a.defs, x.name), f, provf(x.name), d);
     let ds = bucket(a.defs, x.name);
     let p = p_same(f, fs_true());
+    // the view's same-file entry is best_same (last of maximal line); D is the only same-file definition
+    assert forall|i: int, j: int| 0 <= i < ds.len() && 0 <= j < ds.len() && p(#[trigger] ds[i]) && p(#[trigger] ds[j]) implies i == j by {}
+    lemma_unique_first_is_best(ds, p);
     lemma_first_match_in(ds, p);
     assert(p(ds[k]));
     match first_match(ds, p) {
@@ -299,7 +304,7 @@ proof fn canary_outgoing_one_call_per_dependency(v: NavV, p: PV, d: DefV)
 {}
 /// inlay hints agree with go-to-definition without H0 (FALSE: self-named parameter)
 proof fn canary_inlay_agrees_with_goto_without_H0(a: AvV, provf: spec_fn(Seq<char>) -> spec_fn(PV) -> bool, f: PV, x: UseV)
-    requires at_most_one_in(bucket(a.defs, x.name), f), import_tests_agree(a, provf(x.name), x.name), pv_has_parent(f) && f.len() > 0,
+    requires import_tests_agree(a, provf(x.name), x.name), pv_has_parent(f) && f.len() > 0,
     ensures avail_pick(a, f, x.name) == resolve_usage(a.defs, provf, f, x)
 {
     lemma_C05_b_view_agrees_with_goto(a, f, provf(x.name), x.name);
